@@ -639,7 +639,10 @@ func FuzzyMatchV2(caseSensitive bool, normalize bool, forward bool, input *util.
 				}
 				i--
 			}
-			preferMatch = C[I+j0] > 1 || I+width+j0+1 < len(C) && C[I+width+j0+1] > 0
+			// Cells of the next row left of F[row+1] (and past lastIdx) are never
+			// written; they must not be read as they may hold stale slab contents
+			row := I / width
+			preferMatch = C[I+j0] > 1 || row+1 < M && j+1 >= int(F[row+1]) && j < lastIdx && C[I+width+j0+1] > 0
 			j--
 		}
 	}
